@@ -297,7 +297,8 @@ theorem gaussian_normal_equations (solve : List α → List α → Option (List 
 /-! ## 5. the result of `fit` -/
 
 theorem hasConverged_true {loss : α} {prev : Option α} {tol : α} (h : hasConverged loss prev tol = true) :
-    ∃ lp, prev = some lp ∧ GlmScalar.isInfinite lp = false ∧ Transc.abs (loss - lp) / lp < tol := by
+    ∃ lp, prev = some lp ∧ GlmScalar.isInfinite lp = false ∧ (lp == 0) = false ∧
+      Transc.abs (loss - lp) / lp < tol := by
   unfold hasConverged at h
   cases prev with
   | none => simp at h
@@ -305,8 +306,18 @@ theorem hasConverged_true {loss : α} {prev : Option α} {tol : α} (h : hasConv
     refine ⟨lp, rfl, ?_⟩
     by_cases hi : GlmScalar.isInfinite lp = true
     · simp [hi] at h
-    · simp only [hi] at h
-      exact ⟨by simpa using hi, by simpa using h⟩
+    · by_cases hz : (lp == 0) = true
+      · simp [hi, hz] at h
+      · simp only [hi, hz] at h
+        exact ⟨by simpa using hi, by simpa using hz, by simpa using h⟩
+
+/-- what the code does at `loss_previous = 0` (a perfect fit on the previous pass): `|Δ|/0` is `inf`/`NaN`, the test is
+false, so the loop runs on and `fit` ends in `Err` unless a later pass has a non-zero previous deviance -/
+theorem hasConverged_zero (loss lp tol : α) (hz : (lp == 0) = true) : hasConverged loss (some lp) tol = false := by
+  unfold hasConverged
+  by_cases hi : GlmScalar.isInfinite lp = true
+  · simp [hi]
+  · simp [hi, hz]
 
 theorem loopBody_facts {solve : List α → List α → Option (List α)} {P : Problem α} {st st' : LoopState α}
     (h : loopBody solve P st = some st') :
@@ -425,11 +436,12 @@ theorem fit_result (solve : List α → List α → Option (List α)) (family : 
     simp [c1, this]; omega
 
 /-- **fit_ok_converged.** On `Ok` the last two penalised deviances differ relatively by less than the tolerance:
-`|pd − pd_prev| / pd_prev < tol` with a finite `pd_prev`. -/
+`|pd − pd_prev| / pd_prev < tol` with a finite, NON-ZERO `pd_prev` (`(lp == 0) = false`; with a lawful `==` that is
+`lp ≠ 0`, see `fit_ok_converged_ne_zero`), so the quotient is a genuine quotient and not a totalised `x/0`. -/
 theorem fit_ok_converged (solve : List α → List α → Option (List α)) (family : Family) (x y : List α)
     (weights offsets : Option (List α)) (alpha tol : α) (maxIter : Nat) (r : Fit α)
     (h : fit solve family x y weights offsets alpha tol maxIter = some r) (hok : r.ok = true) :
-    ∃ pd lp, r.pd = some pd ∧ r.pdPrev = some lp ∧ GlmScalar.isInfinite lp = false ∧
+    ∃ pd lp, r.pd = some pd ∧ r.pdPrev = some lp ∧ GlmScalar.isInfinite lp = false ∧ (lp == 0) = false ∧
       Transc.abs (pd - lp) / lp < tol := by
   obtain ⟨_, hiff, _⟩ := fit_result solve family x y weights offsets alpha tol maxIter r h
   have hconv : r.converged = true := by
@@ -442,38 +454,38 @@ theorem fit_ok_converged (solve : List α → List α → Option (List α)) (fam
   obtain ⟨_, ⟨pd, hp1, hp2⟩, _⟩ := fitLoop_facts solve P (maxIter - 1) st0 st h2
   rw [hcv] at hconv
   rw [hconv] at hp2
-  obtain ⟨lp, e1, e2, e3⟩ := hasConverged_true hp2.symm
-  exact ⟨pd, lp, by rw [hpd, hp1], by rw [hpp, e1], e2, by rw [← htol]; exact e3⟩
+  obtain ⟨lp, e1, e2, ez, e3⟩ := hasConverged_true hp2.symm
+  exact ⟨pd, lp, by rw [hpd, hp1], by rw [hpp, e1], e2, ez, by rw [← htol]; exact e3⟩
+
+/-- `fit_ok_converged` with a lawful `==`: the previous penalised deviance is not zero -/
+theorem fit_ok_converged_ne_zero [LawfulBEq α] (solve : List α → List α → Option (List α)) (family : Family)
+    (x y : List α) (weights offsets : Option (List α)) (alpha tol : α) (maxIter : Nat) (r : Fit α)
+    (h : fit solve family x y weights offsets alpha tol maxIter = some r) (hok : r.ok = true) :
+    ∃ pd lp, r.pd = some pd ∧ r.pdPrev = some lp ∧ lp ≠ 0 ∧ Transc.abs (pd - lp) / lp < tol := by
+  obtain ⟨pd, lp, h1, h2, _, hz, h3⟩ := fit_ok_converged solve family x y weights offsets alpha tol maxIter r h hok
+  exact ⟨pd, lp, h1, h2, by simpa using hz, h3⟩
 
 /-! ## 6. the stored results and the accessors -/
 
-/-- **fit_stored.** What `fit` stores: `p` = number of columns, `n = round(Σ w)`, the deviance at the means of the *last
-pass* (one scoring step before the returned coefficients) and the unpenalised information at the same point. -/
+/-- **fit_stored.** The shape part of what `fit` stores: `p` = number of columns, `n = round(Σ w)`, family, offsets.  (What the
+stored deviance and information matrix ARE — the deviance and the unpenalised information at the linear predictor of the
+last pass, one scoring step BEFORE the returned coefficients — is `fit_last_pass` in `Props/C06Review.lean`.) -/
 theorem fit_stored (solve : List α → List α → Option (List α)) (family : Family) (x y : List α)
     (weights offsets : Option (List α)) (alpha tol : α) (maxIter : Nat) (r : Fit α)
     (h : fit solve family x y weights offsets alpha tol maxIter = some r) :
     isMatrix x y.length = some r.p ∧ isDesign x y.length = some true ∧ r.family = family ∧ r.offsets = offsets ∧
     (∀ w, weights = some w → w.length = y.length ∧ r.n = GlmScalar.roundToNat w.sum) ∧
-    (weights = none → r.n = GlmScalar.roundToNat ((List.replicate y.length (1 : α)).sum)) ∧
-    ∃ mu dmu var, deviance family y mu = some r.deviance ∧
-      ∃ w, resolveWeights weights y.length = some w ∧ computeDdbeta x dmu var w = some r.information := by
+    (weights = none → r.n = GlmScalar.roundToNat ((List.replicate y.length (1 : α)).sum)) := by
   obtain ⟨P, st0, st, h1, h2, h3⟩ := fit_some h
   obtain ⟨_, _, _, hf, hoff, hx, hy, _, hp, hd, hwl, hw1, hw2, _, _, _⟩ := fitInit_some h1
   obtain ⟨_, _, hdev, hinfo, hn, hpp, hfam, hoffs, _, _, _, _⟩ := fitFinish_some h3
-  refine ⟨by rw [hpp]; exact hp, hd, by rw [hfam, hf], by rw [hoffs, hoff], ?_, ?_, st.mu, st.dmu, st.var,
-    by rw [← hf, ← hy]; exact hdev, P.weights, ?_, by rw [← hx]; exact hinfo⟩
+  refine ⟨by rw [hpp]; exact hp, hd, by rw [hfam, hf], by rw [hoffs, hoff], ?_, ?_⟩
   · intro w hw
     have := hw1 w hw
     rw [this] at hwl hn
     exact ⟨hwl, by rw [hn, sum8_eq]⟩
   · intro hw
     rw [hn, hw2 hw, sum8_eq]
-  · cases weights with
-    | none => rw [hw2 rfl]; rfl
-    | some w =>
-      have := hw1 w rfl
-      rw [this] at hwl ⊢
-      simp [resolveWeights, hwl]
 
 /-- **dispersion_spec.** `deviance / (n − p)` for the dispersion families (a panic when `n < p`), `1` otherwise. -/
 theorem dispersion_spec (r : Fit α) :
